@@ -71,6 +71,34 @@ CHECKS = {
              'cofactor multiple of the first admissible point, in the subgroup, non-identity; outputs byte-identical on prod/ASan/portable builds.',
         note='Trusted: Python big-int arithmetic, oracle/bls.py. Choice between the two roots y is checked only for determinism/build-independence.',
         ref='DESIGN.md section 3 C10'),
+    'C11': dict(
+        technique='history + executable slot-pattern model; in-process pairing-equation monitor after every API step; exact-size heap slot arrays under ASan; exhaustive one-step transitions for l=3',
+        text='Delegation histories are executed through the C API the way the Go binding does (slot arrays of exactly l-len(attrs) entries); after every step a monitor checks the key '
+             'against a slot-pattern model kept outside the library: free-slot list ascending, e(a0,g)=e(g2,g1)e(g3 prod h_i^v_i,a1), e(b_i,g)=e(h_i,a1), bsig, membership, decryption of a '
+             'fresh ciphertext for exactly the pattern by key and master key, a1 kept/changed. l=3: all 54 keygen lists x every documented one-step list x both omit-all settings x '
+             '{qualifykey, nondelegable_qualifykey} (+ resample samples); l up to 20: random histories of depth <= 5 incl. adjust_nondelegable. Held on N key checks.',
+        note='Trusted: the library\'s own bls12_381 layer as instrument for the equations (independently checked by C01-C08), the model in checks/wkd.py. Attribute values are sampled.',
+        ref='DESIGN.md section 3 C11'),
+    'C12': dict(
+        technique='negative-oracle monitor over decrypt events: generator guarantees a real difference mod r (absent = 0); hidden-slot filling attempts through every API that could do it; ASan/UBSan',
+        text='decrypt(key for pattern P, ciphertext for list L) must differ from the message whenever L differs from P as vectors mod r (change/drop/add at free or hidden slots/multi), '
+             'must equal it for equal-mod-r representatives (positive controls); qualifykey / nondelegable_qualifykey / adjust_nondelegable called with a value for a hidden slot must not '
+             'yield a key that opens the ciphertext with that slot set; each single ciphertext component modification changes the result.',
+        note='Trusted: library arithmetic as instrument; coincidental equality of random GT elements (2^-255) ignored.',
+        ref='DESIGN.md section 3 C12'),
+    'C13': dict(
+        technique='monitor over sign/verify events with an independently evaluated verification equation; positive and real-difference negative cases derived from the slot-pattern model',
+        text='sign and sign_precomputed (incl. the null-list form) on extension lists over free slots must verify under verify, verify_precomputed and the monitor\'s own evaluation of '
+             'e(a0,g)=e(g2,g1)e(hsig^m g3 prod h_i^v_i,a1); other message, changed/dropped/added slot, hidden slot set, incompatible key, each altered signature component must all be rejected; '
+             'the three verdicts must agree, so a lax verifier and a wrong signer cannot cancel.',
+        note='Trusted: library pairing as instrument (two single pairings, not the product routine). Only parameters with signature support bind the message.',
+        ref='DESIGN.md section 3 C13'),
+    'C14': dict(
+        technique='differential monitor: incremental path vs recomputation from scratch on the same inputs, all ordered list pairs for l=3 over a 3-value set incl. ids >= r, chains of adjustments',
+        text='adjust_precomputed along chains of lists must equal precompute(to) at every step (and precompute itself must equal the monitor\'s product); adjust_nondelegable must equal '
+             'nondelegable_qualifykey(parent,to) component for component; encrypt/sign/verify through precomputed values interchangeable with the direct forms.',
+        note='Trusted: library group equality as instrument. quick tier enumerates every second ordered pair, thorough all 4096.',
+        ref='DESIGN.md section 3 C14'),
 }
 
 NOT_YET = 'check not built yet in this round (planned, see DESIGN.md section 3)'
